@@ -1,5 +1,6 @@
 #!/bin/bash
 # usage: confirm_seed.sh <ID e.g. C02a> <property> <dir with ID.diff, ID_demo.rs, ID.md>
+# DEMO_FLAGS: extra cargo flags the demonstration needs (e.g. --features max-encoded-len)
 # Confirms a seeded change in a scratch worktree: compiles, suite unchanged, demo fails with / passes without.
 set -u
 ID=$1; PROP=$2; SRC=$3
@@ -11,7 +12,9 @@ git -C /repo worktree add -q --detach $W HEAD || exit 2
 export CARGO_TARGET_DIR=/tmp/conf/target   # shared between confirmations (same sources apart from the patch)
 summ() { grep -E "^test .* \.\.\. (ok|FAILED|ignored)" | sed 's/ \.\.\. /=/' | sort | uniq -c | md5sum | cut -c1-12; }
 cd $W
-if [ ! -f /tmp/conf/baseline.sum ]; then
+HEADREV=$(git -C /repo rev-parse --short HEAD)
+if [ ! -f /tmp/conf/baseline.sum ] || [ "$(cat /tmp/conf/baseline.rev 2>/dev/null)" != "$HEADREV" ]; then
+  echo $HEADREV > /tmp/conf/baseline.rev
   cargo test --workspace --no-fail-fast --offline 2>&1 | tee /tmp/conf/baseline.log | summ > /tmp/conf/baseline.sum
 fi
 git apply $SRC/$ID.diff || { echo "$ID: patch does not apply"; exit 2; }
@@ -20,9 +23,9 @@ S=$(cat /tmp/conf/$ID.suite.log | summ)
 B=$(cat /tmp/conf/baseline.sum)
 SUITE_SAME=false; [ "$S" = "$B" ] && SUITE_SAME=true
 cp $SRC/${ID}_demo.rs tests/${ID}_demo.rs
-cargo test --offline --test ${ID}_demo > /tmp/conf/$ID.demo_with.log 2>&1; RC_WITH=$?
+cargo test --offline ${DEMO_FLAGS:-} --test ${ID}_demo > /tmp/conf/$ID.demo_with.log 2>&1; RC_WITH=$?
 git apply -R $SRC/$ID.diff
-cargo test --offline --test ${ID}_demo > /tmp/conf/$ID.demo_without.log 2>&1; RC_WITHOUT=$?
+cargo test --offline ${DEMO_FLAGS:-} --test ${ID}_demo > /tmp/conf/$ID.demo_without.log 2>&1; RC_WITHOUT=$?
 cp $SRC/$ID.diff $OUT/patch.diff; cp $SRC/${ID}_demo.rs $OUT/demo.rs; cp $SRC/$ID.md $OUT/description.md 2>/dev/null
 python3 - <<E
 import json
